@@ -1,13 +1,14 @@
 (* WireCheck.v — correspondence + monitors for the packet path (C11 C12 C13 C14 C15 C16). *)
 From Coq Require Import List NArith ZArith Bool Uint63.
 Import ListNotations.
-From VF Require Import Base Label Wire Raw.
+From VF Require Import Base Label Wire Raw Keyring.
 Local Open Scope N_scope.
 
 Definition bytes_of (v : list int) : bytes := map ni v.
 Definition beq := list_eqb N.eqb.
 
-(* cfg: kind sel udp skipS skipR vout vinR encvsn compress fixed pm class | nkS keysS | nkR keysR | nlS labS | nlR labR *)
+(* cfg: kind sel udp skipS skipR vout vinR encvsn compress fixed pm class | nkS keysS | nkR keysR | nlS labS | nlR labR
+        | 2*nops (op key)*   -- the receiver's key history after it was set up with keysR: op 0 AddKey, 1 UseKey, 2 RemoveKey *)
 Record wcase := mkW {
   w_kind : N; w_udp : N; w_class : N; w_pm : option N;
   w_s : pcfg; w_r : pcfg }.
@@ -18,16 +19,30 @@ Definition take_counted (l : list int) : list N * list int :=
   | [] => ([], [])
   end.
 
+(* the keys installed after a history of keyring calls, primary first: the Keyring model (every key of the harness pool
+   has a valid length) *)
+Fixpoint dec_kops (l : list N) : list kop :=
+  match l with
+  | op :: k :: l' => (if N.eqb op 0 then KAdd k else if N.eqb op 1 then KUse k else KRemove k) :: dec_kops l'
+  | _ => []
+  end.
+Definition ring_after (ks : list N) (hist : list N) : list N :=
+  match hist with
+  | [] => ks
+  | _ => ring (fst (krun (fun _ => true) true (mkK [ks] 0) (dec_kops hist)))
+  end.
+
 Definition dec_cfg (v : list int) : option wcase :=
   match v with
   | kind :: _ :: udp :: skS :: skR :: vout :: vinR :: ev :: cm :: fx :: pm :: cls :: rest =>
       let '(kS, r1) := take_counted rest in
       let '(kR, r2) := take_counted r1 in
       let '(lS, r3) := take_counted r2 in
-      let '(lR, _) := take_counted r3 in
+      let '(lR, r4) := take_counted r3 in
+      let '(hist, _) := take_counted r4 in
       Some (mkW (ni kind) (ni udp) (ni cls) (if Uint63.eqb pm 0 then None else Some (ni pm - 1))
                 (mkP lS (bi skS) kS (bi vout) true (ni ev) (bi cm) (bi fx))
-                (mkP lR (bi skR) kR true (bi vinR) (ni ev) false (bi fx)))
+                (mkP lR (bi skR) (ring_after kR hist) true (bi vinR) (ni ev) false (bi fx)))
   | _ => None
   end.
 
@@ -164,6 +179,9 @@ Definition check_case (sel : N) (cs : list int * (list (list int) * list (list i
         let unchanged := dl_equiv original obs_d in
         let nothing := match obs_d with [] => true | _ => false end in
         if want 13 && pan then mkV 240 0
+        (* the packet was sealed under a key that is not among the receiver's installed keys when it arrives (never
+           installed, or removed since -- however often it had been added before): nothing may come of it *)
+        else if want 14 && verify_in (w_r w) && negb (Nmem (primary (w_s w)) (keys (w_r w))) && negb nothing then mkV 234 0
         else if want 16 && N.eqb (w_class w) 20 && negb nothing then mkV 220 0
         else if want 14 && N.eqb (w_class w) 20 && negb nothing then mkV 232 0
         else if want 14 && negb (N.eqb (w_class w) 20) && negb (nothing || unchanged) then
